@@ -300,7 +300,7 @@ async def _scenario_async_udp(entry: serializers.Entry, seed: int) -> dict[str, 
                     got.append(b.recv(70000))
                 except BlockingIOError:
                     pass
-                events.append({"ev": "send", "id": arg + 1, "n": len(got), "ok": _check_send(entry, packets[arg], got)})
+                events.append({"ev": "send", "id": arg + 1, "n": len(got), "ok": _check_send(entry, packets[arg], got), "kind": "" if proto.make_datagram(packets[arg]) else "empty"})
                 b.send(proto.make_datagram(packets[arg]))  # echo
             else:
                 events.append({"ev": "inject"})
@@ -485,7 +485,7 @@ def run(chk: Check) -> None:
         t = rec[idx]
         failing = t["events"][pos - 1] if 0 < pos <= len(t["events"]) else None
         chk.violation(
-            {"kind": "trace", "spec": "Datagram", "target": t["meta"].split()[0], "event": (failing or {}).get("ev", "?"), "what": "empty_datagram" if "EMPTY datagram" in t["meta"] else "other"},
+            {"kind": "trace", "spec": "Datagram", "target": t["meta"].split()[0], "event": (failing or {}).get("ev", "?"), "what": "empty_datagram" if "EMPTY datagram" in t["meta"] or (failing or {}).get("kind") == "empty" else "other"},
             f"datagram: not a behaviour of Datagram (event #{pos}: {failing}) -- {t['meta']}",
             {"kind": "datagram_trace", "meta": t["meta"], "events": t["events"]},
         )
